@@ -973,4 +973,4 @@ MANIFEST = dict(
                "(assumed: lock hold times far below the timeout); the stress runs are the only witness there.",
     technique="Lean 4 proof (per-connection invariant, any N, any schedule) + source translator + model/implementation correspondence",
 )
-READY = False
+READY = True
